@@ -2092,10 +2092,45 @@ def _table_rows(repo, fi, it, ref):
         if not isinstance(val, (ast.Tuple, ast.List)):
             return None
         rows = [list(r.elts) if isinstance(r, ast.Tuple) else [r] for r in val.elts]
-    if not rows or len(rows) > 16 or len({len(r) for r in rows}) != 1 or not all(_atom(x) for r in rows for x in r):
+    def cell(x):
+        # an atom, a tuple of constants (`('b', '%')` handed to startswith) or `slice(<constants>)`
+        return _atom(x) or (isinstance(x, ast.Tuple) and x.elts and all(isinstance(e, ast.Constant) for e in x.elts)) \
+            or (isinstance(x, ast.Call) and isinstance(x.func, ast.Name) and x.func.id == 'slice' and not x.keywords and 1 <= len(x.args) <= 3 and all(_atom(a) for a in x.args))
+    if not rows or len(rows) > 16 or len({len(r) for r in rows}) != 1 or not all(cell(x) for r in rows for x in r):
         return None
     # names used in the table must mean the same where the loop is (same module)
     return rows
+
+
+class _TableCellCanon(ast.NodeTransformer):
+    """What substituting table cells leaves behind, spelled the ordinary way: `str.startswith(x, a)` -> `x.startswith(a)` for a
+    parameter x annotated `str`; `x[slice(a, b)]` -> `x[a:b]`."""
+    def __init__(self, str_params):
+        self.str_params, self.count = str_params, 0
+
+    def visit_Call(self, node):
+        self.generic_visit(node)
+        f = node.func
+        if isinstance(f, ast.Attribute) and isinstance(f.value, ast.Name) and f.value.id == 'str' and node.args and isinstance(node.args[0], ast.Name) \
+                and node.args[0].id in self.str_params and not node.keywords:
+            self.count += 1
+            new = ast.Call(func=ast.Attribute(value=node.args[0], attr=f.attr, ctx=ast.Load()), args=node.args[1:], keywords=[])
+            return ast.copy_location(new, node)
+        return node
+
+    def visit_Subscript(self, node):
+        self.generic_visit(node)
+        sl = node.slice
+        if isinstance(sl, ast.Call) and isinstance(sl.func, ast.Name) and sl.func.id == 'slice' and not sl.keywords and 1 <= len(sl.args) <= 3:
+            a = list(sl.args)
+            none = lambda e: None if (isinstance(e, ast.Constant) and e.value is None) else e
+            if len(a) == 1:
+                lo, hi, stp = None, none(a[0]), None
+            else:
+                lo, hi, stp = none(a[0]), none(a[1]), (none(a[2]) if len(a) == 3 else None)
+            self.count += 1
+            node.slice = ast.copy_location(ast.Slice(lower=lo, upper=hi, step=stp), sl)
+        return node
 
 
 class _ConstFold(ast.NodeTransformer):
@@ -2725,6 +2760,63 @@ class _MembershipInNewConst(ast.NodeTransformer):
         return node
 
 
+def _unroll_local_dict_dispatch(fn: ast.FunctionDef, known_assigns: set[str]) -> list[str]:
+    """A local dictionary the reviewed function does not have, `D = {k1: (a1, b1), k2: (a2, b2)}` (constant keys, pure elements), used
+    only as `if KEY in D:` / `x, y = D[KEY]` first in that branch -> `if KEY == k1: <branch with a1, b1>` / `elif KEY == k2: ...`:
+    the dispatch the table encodes, spelled as the if-chain it replaced."""
+    done = []
+    for body in list(_bodies(fn)):
+        for di, dst in enumerate(body):
+            if not (isinstance(dst, ast.Assign) and len(dst.targets) == 1 and isinstance(dst.targets[0], ast.Name) and isinstance(dst.value, ast.Dict)
+                    and dst.value.keys and len(dst.value.keys) <= 8 and _u(dst) not in known_assigns):
+                continue
+            D = dst.targets[0].id
+            d = dst.value
+            if not all(k is not None and isinstance(k, ast.Constant) for k in d.keys) or not all(isinstance(v, ast.Tuple) and all(_is_pure(e) for e in v.elts) for v in d.values):
+                continue
+            arity = {len(v.elts) for v in d.values}
+            if len(arity) != 1:
+                continue
+            uses = [n for n in ast.walk(fn) if isinstance(n, ast.Name) and n.id == D and n is not dst.targets[0]]
+            # find the dispatching ifs
+            sites = []
+            for b2 in _bodies(fn):
+                for j, st in enumerate(b2):
+                    if isinstance(st, ast.If) and isinstance(st.test, ast.Compare) and len(st.test.ops) == 1 and isinstance(st.test.ops[0], ast.In) \
+                            and isinstance(st.test.comparators[0], ast.Name) and st.test.comparators[0].id == D and _is_pure(st.test.left) and st.body \
+                            and isinstance(st.body[0], ast.Assign) and len(st.body[0].targets) == 1 and isinstance(st.body[0].targets[0], ast.Tuple) \
+                            and all(isinstance(t, ast.Name) for t in st.body[0].targets[0].elts) and len(st.body[0].targets[0].elts) == next(iter(arity)) \
+                            and isinstance(st.body[0].value, ast.Subscript) and isinstance(st.body[0].value.value, ast.Name) and st.body[0].value.value.id == D \
+                            and _u(st.body[0].value.slice) == _u(st.test.left):
+                        sites.append((b2, j, st))
+            if len(sites) != 1 or len(uses) != 2:
+                continue
+            b2, j, st = sites[0]
+            names = [t.id for t in st.body[0].targets[0].elts]
+            rest = st.body[1:]
+            stored = {n.id for x in rest for n in ast.walk(x) if isinstance(n, ast.Name) and isinstance(n.ctx, ast.Store)}
+            after = [n for k_, x in enumerate(b2) if k_ > j for n in ast.walk(x) if isinstance(n, ast.Name) and n.id in names]
+            if stored & set(names) or after:
+                continue
+            chain = list(st.orelse)
+            for k, v in reversed(list(zip(d.keys, d.values))):
+                mapping = dict(zip(names, v.elts))
+                new_body = [_Subst(mapping).visit(copy.deepcopy(x)) for x in rest] or [ast.Pass()]
+                test = ast.Compare(left=copy.deepcopy(st.test.left), ops=[ast.Eq()], comparators=[copy.deepcopy(k)])
+                node = ast.If(test=test, body=new_body, orelse=chain)
+                _set_lines(node, st)
+                for x_, y_ in zip(new_body, rest):
+                    ast.copy_location(x_, y_)
+                chain = [node]
+            b2[j] = chain[0]
+            body[di] = ast.Pass()
+            ast.copy_location(body[di], dst)
+            ast.fix_missing_locations(fn)
+            done.append(_u(dst)[:70])
+            return done + _unroll_local_dict_dispatch(fn, known_assigns)
+    return done
+
+
 def _unroll_dict_lookups(repo, fi, ref) -> list[str]:
     """`return T.get(x, d)` / `return T.get(x)` / `return T[x]` for a new constant dictionary T -> `if x == k1: return v1` ... and the
     default (or the KeyError) last."""
@@ -3104,6 +3196,9 @@ def normalise(repo) -> dict:
             d = _expand_get_none_test(repo, fi, set(ref_funcs[key].get('assigns', [])))
             if d:
                 log.setdefault(q, []).extend(f'get + None test -> membership test: {x}' for x in d)
+            d = _unroll_local_dict_dispatch(fi.node, set(ref_funcs[key].get('assigns', [])))
+            if d:
+                log.setdefault(q, []).extend(f'dispatch through a new local dictionary -> if-chain: {x}' for x in d)
             mb = _MembershipInNewConst(repo, fi, ref)
             mb.visit(fi.node)
             if mb.done:
@@ -3114,6 +3209,12 @@ def normalise(repo) -> dict:
             d = _unroll_tables(repo, fi, ref)
             if d:
                 log.setdefault(q, []).extend(f'loop over a new constant table unrolled: {x}' for x in d)
+                a_ = fi.node.args
+                tc = _TableCellCanon({p_.arg for p_ in a_.posonlyargs + a_.args + a_.kwonlyargs if p_.annotation is not None and _u(p_.annotation) == 'str'})
+                tc.visit(fi.node)
+                sp_ = _Spelling(fi.module.imports)
+                sp_.visit(fi.node)
+                ast.fix_missing_locations(fi.node)
             d = _default_then_override(fi.node, set(ref_funcs[key].get('assigns', [])))
             if d:
                 log.setdefault(q, []).extend(f'default-then-override -> if/else: {x}' for x in d)
